@@ -768,17 +768,24 @@ package twig
 // buffer (Go's append: in place or into a larger array)
 //@ func (*ZeroAllocTokenizer).AddToken props: C04 C14 C05
 //@   modifies t.tokenBuffer, elems(t.tokenBuffer)
-//@   ensures len(t.tokenBuffer) == old(len(t.tokenBuffer)) + 1
+//@   ensures len(t.tokenBuffer) == old(len(t.tokenBuffer)) + 1 && (arrRef(t.tokenBuffer) == old(arrRef(t.tokenBuffer)) || freshArr(t.tokenBuffer))
 //@   ensures t.tokenBuffer[old(len(t.tokenBuffer))].Type == tokenType && t.tokenBuffer[old(len(t.tokenBuffer))].Value == value && t.tokenBuffer[old(len(t.tokenBuffer))].Line == line
 //@   ensures forall k int :: 0 <= k && k < old(len(t.tokenBuffer)) ==> t.tokenBuffer[k] == old(t.tokenBuffer[k])
 // the tag-content tokenizers only add tokens (and remember short strings)
+// the token buffer and the remembered strings are the ones the function was entered with or arrays
+// allocated since (append)
+//@ define bufOwn() ((arrRef(t.tokenBuffer) == old(arrRef(t.tokenBuffer)) || freshArr(t.tokenBuffer)) && (arrRef(t.tempStrings) == old(arrRef(t.tempStrings)) || freshArr(t.tempStrings)))
 //@ group tokwrites props: C05
-//@   modifies t.tokenBuffer, elems(t.tokenBuffer), t.tempStrings, elems(t.tempStrings)
+//@   modifies t.tokenBuffer, elems(t.tokenBuffer), t.tempStrings, elems(t.tempStrings), t.source, t.position, t.line
+//@   ensures t.source == old(t.source) && t.position == old(t.position) && t.line == old(t.line) && bufOwn()
+//@   loop * invariant bufOwn()
 //@ apply tokwrites (*ZeroAllocTokenizer).processBlockTag
 //@ apply tokwrites (*ZeroAllocTokenizer).TokenizeExpression
 //@ apply tokwrites (*ZeroAllocTokenizer).tokenizeObjectContents
 //@ apply tokwrites (*ZeroAllocTokenizer).tokenizeTemplatePath
-//@ apply tokwrites (*ZeroAllocTokenizer).GetStringConstant
+//@ func (*ZeroAllocTokenizer).GetStringConstant props: C05
+//@   modifies t.tempStrings, elems(t.tempStrings)
+//@   ensures arrRef(t.tempStrings) == old(arrRef(t.tempStrings)) || freshArr(t.tempStrings)
 //@ func countNewlines props: C05
 //@   pure
 //@ func Intern props: C05
@@ -803,3 +810,39 @@ package twig
 //@   atcall (*ZeroAllocTokenizer).AddToken#8 closeAt(t.source, tagEndPos, ite(t.source[tagLoc.Position + 1] == 123, 125, t.source[tagLoc.Position + 1])) && noClose(t.source, tagContentStart, tagEndPos, ite(t.source[tagLoc.Position + 1] == 123, 125, t.source[tagLoc.Position + 1]))
 //@   atcall (*ZeroAllocTokenizer).AddToken#8 a1 == endTok(t.source, tagLoc.Position, tagContentStart, tagEndPos)
 //@   atcall (*ZeroAllocTokenizer).AddToken#9 a1 == TOKEN_EOF && a2 == ""
+// TokenizeHtmlPreserving (templates below 4096 bytes) searches the five opener patterns with
+// strings.Index and keeps the leftmost (at equal positions the longer "{{-" / "{%-", which it tries
+// first). It is checked against the same step specification as TokenizeOptimized.
+//@ define m0(S, Q) (0 <= Q && Q + 2 < len(S) && S[Q] == 123 && S[Q + 1] == 123 && S[Q + 2] == 45)
+//@ define m1(S, Q) (0 <= Q && Q + 1 < len(S) && S[Q] == 123 && S[Q + 1] == 123)
+//@ define m2(S, Q) (0 <= Q && Q + 2 < len(S) && S[Q] == 123 && S[Q + 1] == 37 && S[Q + 2] == 45)
+//@ define m3(S, Q) (0 <= Q && Q + 1 < len(S) && S[Q] == 123 && S[Q + 1] == 37)
+//@ define m4(S, Q) (0 <= Q && Q + 1 < len(S) && S[Q] == 123 && S[Q + 1] == 35)
+//@ define srcT() t.source
+//@ define posT() t.position
+//@ define closerT(TT) ite(TT == TOKEN_VAR_START || TT == TOKEN_VAR_START_TRIM, 125, ite(TT == TOKEN_BLOCK_START || TT == TOKEN_BLOCK_START_TRIM, 37, 35))
+//@ func (*ZeroAllocTokenizer).TokenizeHtmlPreserving props: C04 C14 C05
+//@   strings content
+//@   loop * invariant tagPatterns[0] == "{{-" && tagPatterns[1] == "{{" && tagPatterns[2] == "{%-" && tagPatterns[3] == "{%" && tagPatterns[4] == "{#"
+//@   loop * invariant tagTypes[0] == TOKEN_VAR_START_TRIM && tagTypes[1] == TOKEN_VAR_START && tagTypes[2] == TOKEN_BLOCK_START_TRIM && tagTypes[3] == TOKEN_BLOCK_START && tagTypes[4] == TOKEN_COMMENT_START
+//@   loop * invariant tagLengths[0] == 3 && tagLengths[1] == 2 && tagLengths[2] == 3 && tagLengths[3] == 2 && tagLengths[4] == 2
+//@   loop 1 invariant 0 <= posT() && posT() <= len(srcT()) && srcT() == old(t.source) && (posT() == 0 || afterCloser(srcT(), posT()) || afterOpener(srcT(), posT()))
+//@   loop 2 invariant 0 <= i && i <= 5 && 0 <= posT() && posT() < len(srcT()) && srcT() == old(t.source) && remainingSource == substr(srcT(), posT(), len(srcT()))
+//@   loop 2 invariant (i >= 1 ==> (forall q int :: posT() <= q && (nextTagPos == 0 - 1 || q < nextTagPos) ==> !m0(srcT(), q)))
+//@   loop 2 invariant (i >= 2 ==> (forall q int :: posT() <= q && (nextTagPos == 0 - 1 || q < nextTagPos) ==> !m1(srcT(), q)))
+//@   loop 2 invariant (i >= 3 ==> (forall q int :: posT() <= q && (nextTagPos == 0 - 1 || q < nextTagPos) ==> !m2(srcT(), q)))
+//@   loop 2 invariant (i >= 4 ==> (forall q int :: posT() <= q && (nextTagPos == 0 - 1 || q < nextTagPos) ==> !m3(srcT(), q)))
+//@   loop 2 invariant (i >= 5 ==> (forall q int :: posT() <= q && (nextTagPos == 0 - 1 || q < nextTagPos) ==> !m4(srcT(), q)))
+//@   loop 2 invariant nextTagPos == 0 - 1 || (posT() < nextTagPos && ((i >= 1 && m0(srcT(), nextTagPos) && tagType == TOKEN_VAR_START_TRIM && tagLength == 3) || (i >= 2 && m1(srcT(), nextTagPos) && !m0(srcT(), nextTagPos) && tagType == TOKEN_VAR_START && tagLength == 2) || (i >= 3 && m2(srcT(), nextTagPos) && tagType == TOKEN_BLOCK_START_TRIM && tagLength == 3) || (i >= 4 && m3(srcT(), nextTagPos) && !m2(srcT(), nextTagPos) && tagType == TOKEN_BLOCK_START && tagLength == 2) || (i >= 5 && m4(srcT(), nextTagPos) && tagType == TOKEN_COMMENT_START && tagLength == 2)))
+//@   atcall (*ZeroAllocTokenizer).AddToken#3 a1 == TOKEN_TEXT && a2 == substr(srcT(), posT(), len(srcT())) && noOpen(srcT(), posT(), len(srcT()))
+//@   atcall (*ZeroAllocTokenizer).AddToken#4 a1 == TOKEN_TEXT && posT() < nextTagPos && a2 == substr(srcT(), posT(), nextTagPos) && openAt(srcT(), nextTagPos) && noOpen(srcT(), posT(), nextTagPos)
+//@   atcall (*ZeroAllocTokenizer).AddToken#5 a2 == "" && openAt(srcT(), nextTagPos) && noOpen(srcT(), posT(), nextTagPos) && a1 == startTok(srcT(), nextTagPos) && tagLength == ite(srcT()[nextTagPos + 1] != 35 && dashAt(srcT(), nextTagPos + 2), 3, 2)
+//@   atcall (*ZeroAllocTokenizer).AddToken#6 a1 == TOKEN_TEXT && tagType == TOKEN_COMMENT_START && a2 == substr(srcT(), posT(), posT() + nth(endPos, 2))
+//@   atcall (*ZeroAllocTokenizer).AddToken#9 a1 == TOKEN_EOF && a2 == ""
+// (TokenizeExpression borrows source/position/line for the expression text and puts them back)
+//@ func (*ZeroAllocTokenizer).TokenizeExpression props: C05
+//@   loop * invariant t.source == expr && 0 <= t.position && t.position <= len(t.source) && savedSource == old(t.source) && savedPosition == old(t.position) && savedLine == old(t.line)
+//@   loop 1 invariant startTokenCount <= len(t.tokenBuffer) && (inString ==> 0 <= stringStart && stringStart <= t.position)
+//@   loop 2 invariant 0 <= nth(start, 1) && nth(start, 1) <= t.position && startTokenCount <= len(t.tokenBuffer)
+//@   loop 3 invariant 0 <= nth(start, 2) && nth(start, 2) <= t.position && startTokenCount <= len(t.tokenBuffer)
+//@   loop 4 invariant 0 <= nth(start, 2) && nth(start, 2) <= t.position && startTokenCount <= len(t.tokenBuffer)
